@@ -1,5 +1,6 @@
 import LasModel.Props.C09
 open LasModel.Props.C09
+#print axioms C09_bits_of_the_dimension
 #print axioms C09_masks_cover
 #print axioms C09_bytes_in_layout
 #print axioms C09_lsb_correct
